@@ -509,7 +509,12 @@ def check_forward(r, repo: Repo, caller: str, callee_text: str, callee_def: str,
             raw = ast.unparse(a) if a is not None else "<default>"
             r.instance(f"{caller}->{callee_text}:{p}", {"caller": caller, "param": p, "argument": got},
                        caller)
-            if got != expected and raw != expected:
+            from ..rules import deep_text
+            try:
+                same = a is not None and expected != "<default>" and deep_text(fn, a) == deep_text(fn, expected)
+            except SyntaxError:
+                same = False
+            if got != expected and raw != expected and not same:
                 r.violation(caller, f"{callee_text}({p}=…) receives {got}",
                             f"parameter {p} of {callee_text} must receive {expected}, got {got}", repo.loc(c))
 
